@@ -17,7 +17,10 @@ assert rc == 0, o
 res = dict(id=ident)
 try:
     run = open(f"{st}/demo{n}/RUN.txt").read()
-    places = re.findall(r"(\S+)\s*->\s*(\S+)", run)
+    places = []
+    for line in run.splitlines():
+        if line.strip().lower().startswith("place"):
+            places += re.findall(r"(\S+)\s*->\s*(\S+)", line)
     for src, dst in places:
         dst = re.sub(r"^(<repo>|/tmp/mut/C\d+)/", "", dst)
         srcp = os.path.join(st, f"demo{n}", os.path.basename(src))
@@ -25,6 +28,7 @@ try:
     m = re.search(r"go test[^\n]*", run)
     cmd = m.group(0).strip()
     cmd = re.sub(r"\s+2>&1.*$", "", cmd)
+    cmd = re.sub(r"\s+\|.*$", "", cmd)
     res["demo_cmd"] = cmd
     rc0, o0 = sh(cmd, cwd=wt)
     res["demo_without_change"] = "pass" if rc0 == 0 else "FAIL"
@@ -42,7 +46,14 @@ try:
         rc2, o2 = sh("go test -vet=off -count=1 -timeout 25m ./... 2>&1", cwd=wt)
         fails = sorted(set(re.findall(r"^--- FAIL: (\S+)", o2, re.M)))
         known = {"TestDownloadMagnet", "TestDownloadTorrent", "TestDownloadWebseed", "TestTorrentDir", "TestTorrentFiles"}
-        res["suite_new_failures"] = [f for f in fails if f not in known]
+        newf = [f for f in fails if f not in known]
+        still = []
+        for f in newf:   # rerun alone: load-dependent flakes (e.g. piececache TestTTL, fixed-port tracker tests) pass on their own
+            rc3, o3 = sh(f"go test -vet=off -count=1 -run '^{f}$' ./... 2>&1", cwd=wt)
+            if rc3 != 0 and re.search(r"^--- FAIL: " + re.escape(f), o3, re.M):
+                still.append(f)
+        res["suite_flaky_failures"] = [f for f in newf if f not in still]
+        res["suite_new_failures"] = still
         res["suite_build_ok"] = "[build failed]" not in o2
     res["ok"] = res["demo_without_change"] == "pass" and res["demo_with_change"] == "fail" and res.get("applies") and (not full or (not res["suite_new_failures"] and res["suite_build_ok"]))
 finally:
